@@ -685,6 +685,7 @@ impl Check for C03 {
                     },
                     flavour: fl,
                 };
+                ctx.about_to_eval(&case);
                 let ev = eval_c03(&case);
                 ctx.counters.bump(&format!("seg.{}", name));
                 if ctx.want_sample() && index % 5 == 1 && session.len() >= 2 {
@@ -940,6 +941,7 @@ impl Check for C10 {
                         },
                         flavour: fl,
                     };
+                    ctx.about_to_eval(&case);
                     let ev = eval_c10(&case);
                     if ctx.want_sample() && region == "payload" {
                         ctx.sample(sample_json(&case, 0));
@@ -1166,6 +1168,7 @@ impl Check for C02 {
             pending: vec![0],
             flavour: Flavour::Blocking,
         };
+        ctx.about_to_eval(&base);
         let m = base.materialize();
         let reference = run_case(&base, &m, 0);
         let glen = m.barrier.unwrap_or(0);
@@ -1213,6 +1216,7 @@ impl Check for C02 {
                 } else {
                     vec![0]
                 };
+                ctx.about_to_eval(&case);
                 let ev = eval_c02_with(&case, &m, &reference);
                 ctx.counters.bump(&format!("seg.{}", name));
                 if ctx.want_sample() && name == "random" && reference.responses.len() >= 1 {
@@ -1527,6 +1531,7 @@ impl Check for C09 {
                         },
                         flavour: fl,
                     };
+                    ctx.about_to_eval(&case);
                     let ev = eval_c09(&case);
                     if ctx.want_sample() && index % 11 == 3 {
                         ctx.sample(sample_json(&case, C09_EXTRA));
@@ -1696,7 +1701,7 @@ pub fn eval_greeting(case: &WireCase) -> Eval {
 }
 
 /// Generate and evaluate the greeting cases of one run index.
-pub fn run_greeting_index<C: Clone>(
+pub fn run_greeting_index<C: Clone + serde::Serialize>(
     rng: &mut Rng,
     ctx: &mut WorkerCtx<C>,
     known: &KnownFindings,
@@ -1740,6 +1745,7 @@ pub fn run_greeting_index<C: Clone>(
                 },
                 flavour: fl,
             };
+            ctx.about_to_eval(&wrap(case.clone()));
             let ev = eval_greeting(&case);
             if ctx.want_sample() && kind == "valid" && name == "pattern" {
                 ctx.sample(sample_json(&case, 0));
